@@ -20,7 +20,15 @@ import (
 // counts and termination instants, auto-pause and auto-fail off, no earlier record: after the sync
 // the condition is True exactly when some container restarted and its last update is the latest of
 // the termination instants.
-func ZZ_C05_lastRestartAcrossContainers() {
+func ZZ_C05_lastRestartAcrossContainers() { zzLastRestart("C05.last-restart") }
+
+// ZZ_C06_latestRestartAcrossContainers: the same record seen from C06: "the span between the first and
+// the latest observed restart" — the latest is the latest termination over every container of every
+// canary pod (arbitrary termination instants, run start times unset as the kubelet leaves them for
+// containers started with the pod).
+func ZZ_C06_latestRestartAcrossContainers() { zzLastRestart("C06.latest-restart") }
+
+func zzLastRestart(prop string) {
 	now := nondet.TimeNs("now", 0, time.Hour)
 	ds := zzDaemonset(map[string]string{})
 	off := false
@@ -73,11 +81,11 @@ func ZZ_C05_lastRestartAcrossContainers() {
 			recorded, isTrue, at = true, c.Status == corev1.ConditionTrue, c.LastUpdateTime.Time
 		}
 	}
-	nondet.Assert("C05.last-restart.recorded", (recorded && isTrue) == anyRestart)
+	nondet.Assert(prop+".recorded", (recorded && isTrue) == anyRestart)
 	if anyRestart && recorded {
-		nondet.Assert("C05.last-restart.is-the-latest-of-all-containers", at.Equal(latest))
+		nondet.Assert(prop+".is-the-latest-of-all-containers", at.Equal(latest))
 	}
-	nondet.Assert("C05.last-restart.no-verdict-when-disabled", !res.IsFailed && !res.IsPaused)
+	nondet.Assert(prop+".no-verdict-when-disabled", !res.IsFailed && !res.IsPaused)
 	nondet.Observe("recorded", recorded)
-	nondet.Reach("C05.last-restart.less-restarted-container-is-later", anyRestart && nPods == 1 && recorded && at.Equal(latest))
+	nondet.Reach(prop+".less-restarted-container-is-later", anyRestart && nPods == 1 && recorded && at.Equal(latest))
 }
